@@ -349,7 +349,7 @@ def index_recipe(draw, n, kinds=('auto', 'int', 'str', 'float', 'date', 'mixed',
             rec['labels'] = draw(tree_labels_n(n))
     else:
         rec['labels'] = draw(flat_labels(n, kind))
-    if name and draw(st.booleans()):
+    if name and kind != 'auto' and draw(st.booleans()):
         rec['name'] = draw(st.sampled_from(['nm', 'idx', ('t', 1), 0]))
     else:
         rec['name'] = None
